@@ -12,6 +12,8 @@
      C09_current_declared      v_declared <- "AdjacencyMap" and ("Keys" or "All") in graph_merge_calls,
                                no "PredecessorMap"
      C09_current_dc_struct_ok  the part of valid_load that speaks about the variant (needed by C09_order)
+     C09_current_copies_vars   Vars.Merge stamps include.Dir on a copy of the variable (v_inplace = false)
+     C09_current_stable_sort   graph.Merge calls StableTopologicalSort and not TopologicalSort
    Statements about the current tree (what stays a hypothesis is the well-formedness of the input:
    valid_pi g pi / wf_graphb g / valid_sigma s, and for the order "the load succeeded"):
      C09_det_current, C09_order_current.
@@ -29,9 +31,20 @@ Theorem C09_current_declared : v_declared current_variant = true.
 Proof. vm_compute; reflexivity. Qed.
 Print Assumptions C09_current_declared.
 
+Theorem C09_current_copies_vars : v_inplace current_variant = false.
+Proof. vm_compute; reflexivity. Qed.
+Print Assumptions C09_current_copies_vars.
+
 Theorem C09_current_dc_struct_ok : dc_struct_ok current_variant = true.
 Proof. vm_compute; reflexivity. Qed.
 Print Assumptions C09_current_dc_struct_ok.
+
+(* the order in which graph.Merge processes sibling Taskfiles is a function of the graph (stable sort):
+   needed because ast.Var.Dir, stamped in place into shared included Taskfiles by Vars.Merge, is
+   outside the model (Run/MergeCases.v: sort_stable); graph.TopologicalSort ranges over Go maps *)
+Theorem C09_current_stable_sort : sort_stable = true.
+Proof. vm_compute; reflexivity. Qed.
+Print Assumptions C09_current_stable_sort.
 
 (* ---- the statements at the current tree, without premises on the facts ---- *)
 
@@ -40,7 +53,7 @@ Print Assumptions C09_current_dc_struct_ok.
 Theorem C09_det_current :
   forall g pi pi' s s', valid_pi g pi -> valid_pi g pi' ->
     merge_all current_variant g pi s = merge_all current_variant g pi' s'.
-Proof. exact (fun g pi pi' s s' => det_declared current_variant g pi pi' s s' C09_current_declared). Qed.
+Proof. exact (fun g pi pi' s s' => det_declared current_variant g pi pi' s s' C09_current_declared C09_current_copies_vars). Qed.
 Print Assumptions C09_det_current.
 
 (* ... and the task table is in Taskfile order: own tasks, then the includes in declared order, recursively *)
@@ -51,7 +64,7 @@ Theorem C09_order_current :
 Proof.
   exact (fun g pi s Hw Hp Hs =>
            order_declared current_variant g pi s
-             (Build_valid_load current_variant g pi s C09_current_dc_struct_ok Hw Hp Hs) C09_current_declared).
+             (Build_valid_load current_variant g pi s C09_current_dc_struct_ok C09_current_copies_vars Hw Hp Hs) C09_current_declared).
 Qed.
 Print Assumptions C09_order_current.
 
